@@ -9,6 +9,7 @@ writeToZip) defined over the regenerated facts `Facts.C12`; `facts_ok` pins
 the facts the proofs were written for.
 -/
 import XlModel.Lemmas.Store9
+import XlModel.Lemmas.Sst
 
 namespace XlModel.Props.C12
 open XlModel XlModel.Store
@@ -24,7 +25,8 @@ theorem facts_ok :
     Facts.C12.sstGuardExcludesDir = false ∧ Facts.C12.sheetGuardExcludesDir = true ∧
     Facts.C12.sizeAccumulatedBeforeGuard = true ∧ Facts.C12.sizeGuardBeforeInflate = true ∧
     Facts.C12.openErrCleanup = true ∧ Facts.C12.dupReplaces = true ∧
-    Facts.C12.closeRemovesTemp = true ∧ Facts.C12.readBytesPromotes = true ∧
+    Facts.C12.closeRemovesTemp = true ∧ Facts.C12.deleteSheetDeletesPkg = true ∧
+    Facts.C12.deleteSheetDropsTemp = false ∧ Facts.C12.readBytesPromotes = true ∧
     Facts.C12.zipTempBranchViaReadBytes = true ∧ Facts.C12.saveFileListPrependsHeader = true ∧
     Facts.C12.sstLoaderPromotesThenRemoves = true ∧
     Facts.C12.loaderBeforeReader.all (·.2) = true ∧
@@ -285,6 +287,70 @@ theorem nonvacuous_history :
   · intro p hp; simp at hp; subst hp; decide
   · intro p hp; cases hp
   · intro hd; exact absurd hd (by decide)
+
+/-! ## the shared-string table as an object: "decoded from memory or streamed from temporary files" -/
+
+/-- `sst_refines_list`: the shared-string machine (decoded part in memory or in a temp file,
+`File.SharedStrings` incl. the empty placeholder decoded while the part is spilled, the index temp
+file, `sharedStringsMap`, loader / reader / getValueFrom / setSharedString / writer) refines a
+plain list of items: for **every** history of reads (cell, Rows, Cols), loader calls, string
+writes and saves, every string returned, every index assigned by a write, and the resulting table
+are those of the plain list -/
+theorem sst_refines_list (st : Sst.St) (i : Sst.Inv st) (ops : List Sst.Op) :
+    (Sst.run st ops).2 = (Sst.Spec.run (Sst.abs st) ops).2 ∧
+    Sst.abs (Sst.run st ops).1 = (Sst.Spec.run (Sst.abs st) ops).1 :=
+  ⟨(Sst.run_refines ops i).1, (Sst.run_refines ops i).2.1⟩
+
+/-- the same history on the same shared strings part gives the same strings and the same indexes
+whether the part was spilled at open (small UnzipXMLSizeLimit) or kept in memory -/
+theorem sst_tier_independent (part : Sst.Tab) (ops : List Sst.Op) :
+    (Sst.run { part := part, spilled := true, inPkg := false } ops).2 =
+    (Sst.run { part := part, spilled := false, inPkg := true } ops).2 := by
+  have a := Sst.run_refines ops (Sst.Inv.init part true false (fun h => by cases h))
+  have b := Sst.run_refines ops (Sst.Inv.init part false true (fun _ h => by cases h))
+  rw [a.1, b.1]
+  rfl
+
+/-- the i-th string read is independent of the tier, of the table object currently held and of
+everything read or written before: in every reachable state it is the i-th item of the abstract table -/
+theorem string_read_independent (st : Sst.St) (i : Sst.Inv st) (n : Nat) :
+    (Sst.getStr (Sst.sstRead st) n).2 = (((Sst.abs st)[n]?).map (·.text)).getD (Sst.fallback n) :=
+  Sst.getStr_spec i n
+
+/-- the first string write after numeric-only reads of a spilled table appends to the *real* table:
+witness of the C12b/1 / C02a/2 class (a placeholder table that survives the loader) being excluded -/
+theorem first_write_after_numeric_read :
+    (Sst.run { part := [⟨some "a", "a"⟩, ⟨some "b", "b"⟩], spilled := true, inPkg := false }
+      [.read, .set "c" "c", .get 0, .get 2]).2 = [.none, .idx 2, .str "a", .str "c"] := by decide
+
+/-! ## DeleteSheet after a spilled open -/
+
+/-- `close_cleans` over histories with sheet deletions: DeleteSheet (`Op.forget`) keeps the tempFiles
+entry of a spilled worksheet (fact `deleteSheetDropsTemp = false`), so the file stays referenced and
+Close removes it — for every package, limit pair and history in which deletions are interleaved with
+all other modelled operations.  (A DeleteSheet that drops the entry without removing the file breaks
+the invariant: the fact flips and this proof fails.) -/
+theorem close_cleans_with_deletes (l : Limits) (es : List Entry) (st : St) (h : openReader l es = .ok st)
+    (ops1 ops2 : List Op) (n rels : String) :
+    (close (run st (ops1 ++ [.forget n rels] ++ ops2)).1).1.disk = [] :=
+  (close_cleans l es st h (ops1 ++ [.forget n rels] ++ ops2)).1
+
+/-- finding (open, code frozen): DeleteSheet is *not* limit-independent at the package level. The
+part of a worksheet that was spilled at open survives DeleteSheet (it is still delivered by
+readBytes and written by the temp branch of writeToZip), whereas under the default limits it is
+gone.  Reproduced on the real code by the oracle signature
+`saved-package:deleted-spilled-sheet-part-survives`. -/
+theorem finding_deleted_spilled_part_survives :
+    ∃ s1 s2,
+      openReader ⟨10, 0⟩ [⟨"xl/worksheets/sheet1.xml", 100, false, .none, ⟨"a", 100⟩⟩,
+                          ⟨"xl/worksheets/sheet2.xml", 5, false, .none, ⟨"b", 5⟩⟩] = .ok s1 ∧
+      openReader ⟨0, 0⟩ [⟨"xl/worksheets/sheet1.xml", 100, false, .none, ⟨"a", 100⟩⟩,
+                         ⟨"xl/worksheets/sheet2.xml", 5, false, .none, ⟨"b", 5⟩⟩] = .ok s2 ∧
+      absAt (step s1 (.forget "xl/worksheets/sheet1.xml" "xl/worksheets/_rels/sheet1.xml.rels")).1
+        "xl/worksheets/sheet1.xml" = some ⟨"a", 100⟩ ∧
+      absAt (step s2 (.forget "xl/worksheets/sheet1.xml" "xl/worksheets/_rels/sheet1.xml.rels")).1
+        "xl/worksheets/sheet1.xml" = none := by
+  refine ⟨_, _, rfl, rfl, ?_, ?_⟩ <;> decide
 
 /-! ## non-vacuity -/
 
